@@ -18,7 +18,7 @@ var c05Types = []TypeSpec{
 	{K: KString, W: WSlice}, {K: KInt, W: WSlice}, {K: KString, W: WSlicePtr},
 	{K: KString, W: WMap, MapKey: KString}, {K: KInt, W: WMap, MapKey: KString},
 	{K: KBool},
-	{K: KBag}, {K: KOnOff},
+	{K: KBag}, {K: KOnOff}, {K: KBool, W: WSlice},
 }
 
 var c05IniModes = []string{"none", "normal-before-cli", "as-defaults-before-cli", "as-defaults-after-cli"}
@@ -67,7 +67,7 @@ func c05Run(c *Ctx) {
 	home := int(k % 4) // 0 root, 1 nested group (env-namespace), 2 doubly nested, 3 command
 	multi := t.IsMulti()
 	isBool := t.K == KBool && t.W == WScalar
-	if isBool || t.K == KOnOff {
+	if isBool || t.K == KOnOff || t.K == KBool {
 		ndef = 0 // (default tags on bool-kinded types are refused at declaration time)
 	}
 	if t.K == KBag {
@@ -212,7 +212,7 @@ func c05Run(c *Ctx) {
 		args = append(args, "sub")
 	}
 	for i := 0; i < ncli; i++ {
-		if isBool {
+		if t.IsFlag() {
 			cliVals = append(cliVals, "true")
 			args = append(args, r.Pick([]string{"-f", "--" + d.FullLong(focus)}))
 			continue
@@ -339,16 +339,16 @@ func init() {
 		Cases: func(tier string) int64 {
 			switch tier {
 			case "thorough":
-				return 16 * 2 * 3 * 3 * 4 * 3 * 4 * 30
+				return 17 * 2 * 3 * 3 * 4 * 3 * 4 * 30
 			case "race":
 				return 100000
 			}
-			return 16 * 2 * 3 * 3 * 4 * 3 * 4
+			return 17 * 2 * 3 * 3 * 4 * 3 * 4
 		},
 		Run:           c05Run,
 		MinNontrivial: 300,
 		RaceCases:     100000,
-		Rule: "case k decodes to the exhaustive product: 16 option types (scalars, pointers, slices, slice of pointers, maps, Duration, Unmarshalers incl. a bool-kinded and an appending one, bool) x pre-stored value {absent, present} x default tags {0,1,2} x environment {unset, set, set-but-empty} x INI {none, normal before CLI, as-defaults before CLI, as-defaults after CLI} x command-line occurrences {0,1,2} x home {root, group with env-namespace, doubly nested, sub-command}; random values, env-delim {none , ;}, 4 env-namespace delimiters, env keys / inner namespaces / long names that happen to start with their own namespace and delimiter, section names in random case, INI key by field name or namespaced long name, 1-3 entries for multi-valued options. " +
+		Rule: "case k decodes to the exhaustive product: 17 option types (scalars, pointers, slices, slice of pointers, maps, Duration, Unmarshalers incl. a bool-kinded and an appending one, bool, []bool counting flag) x pre-stored value {absent, present} x default tags {0,1,2} x environment {unset, set, set-but-empty} x INI {none, normal before CLI, as-defaults before CLI, as-defaults after CLI} x command-line occurrences {0,1,2} x home {root, group with env-namespace, doubly nested, sub-command}; random values, env-delim {none , ;}, 4 env-namespace delimiters, env keys / inner namespaces / long names that happen to start with their own namespace and delimiter, section names in random case, INI key by field name or namespaced long name, 1-3 entries for multi-valued options. " +
 			"Oracle: the field equals exactly the reference conversion of the values of the highest-ranked source present (CLI > INI > env > default tags > pre-stored); an unrelated option keeps its default. Non-trivial = judged cell; distinct = (type, top source, INI mode, full source subset, home, delimiter, #values).",
 		Assumptions: []string{"set-but-empty environment variables are unspecified (the unchanged code treats them as providing \"\")", "normal-mode INI read after the command line is not ranked by the statement and is not generated", "callback options get no defaults"},
 		Technique:   "runtime reference-model monitor over the exhaustive product of value sources, real environment variables and INI readers; race detector on a concurrent re-run with disjoint env keys (thorough)",
